@@ -262,3 +262,46 @@ func (c *ctx) pickName(names []string) string {
 	}
 	return names[c.rng.Intn(len(names))]
 }
+
+// suiteTokenEdits: a suite string with ONE token damaged in every simple way (shortened, lengthened, emptied,
+// doubled, other case, other digits). Parsers index into tokens; every token kind and every token length
+// near the expected one is a thin slice of "all strings".
+func (c *ctx) suiteTokenEdits() []string {
+	base := []string{"OCRA-1:HOTP-SHA1-6:QN08", "OCRA-1:HOTP-SHA256-8:C-QN08-PSHA1", "OCRA-1:HOTP-SHA512-8:QA10-T1M", "OCRA-1:HOTP-SHA1-6:C-QH08-S064-T30S",
+		"OCRA-1:HOTP-SHA256-10:QN10-PSHA512-S128-T12H"}
+	seen := map[string]bool{}
+	var out []string
+	add := func(x string) {
+		if !seen[x] {
+			seen[x] = true
+			out = append(out, x)
+		}
+	}
+	for _, b := range base {
+		parts := strings.Split(b, ":")
+		for pi := range parts {
+			toks := strings.Split(parts[pi], "-")
+			for ti, tok := range toks {
+				var vars []string
+				for n := 0; n <= len(tok); n++ { // every prefix, every suffix
+					vars = append(vars, tok[:n], tok[n:])
+				}
+				for _, x := range []string{"0", "1", "9", "00", "123", "A", "S", "M", "H", "Q", "N", " ", "-", "é"} {
+					vars = append(vars, tok+x, x+tok)
+					if len(tok) > 1 {
+						vars = append(vars, tok[:1]+x+tok[1:], tok[:len(tok)-1]+x)
+					}
+				}
+				vars = append(vars, tok+tok, strings.ToLower(tok), "")
+				for _, v := range vars {
+					t2 := append(append([]string{}, toks[:ti]...), v)
+					t2 = append(t2, toks[ti+1:]...)
+					p2 := append(append([]string{}, parts[:pi]...), strings.Join(t2, "-"))
+					p2 = append(p2, parts[pi+1:]...)
+					add(strings.Join(p2, ":"))
+				}
+			}
+		}
+	}
+	return out
+}
